@@ -130,6 +130,27 @@ class Intervals:
             dl = op_place(t["discr"])
             if dl is None or dl["proj"]:
                 continue
+            lty = fn.local_ty(dl["local"])
+            ds0 = fn.whole_defs(dl["local"])
+            is_discr = len(ds0) == 1 and ds0[0][0] == "stmt" and ds0[0][1]["k"] == "discr"
+            if lty in INT_RANGES and lty != "bool" and not is_discr:
+                # `match n { 0 => .., k => .. }`: a switch on the integer itself
+                e0 = switch_edges(fn, b)
+                vals = [v for v in e0 if v != "otherwise"]
+                here = [v for v in vals if e0[v] == s]
+                op_l = {"k": "copy", "place": dl}
+
+                def kconst(v):
+                    return {"k": "const", "ty": lty, "bits": str(int(v) % (1 << 128)), "size": max(1, (INT_RANGES[lty][1].bit_length() + 7) // 8)}
+                try:
+                    if len(here) == 1 and e0["otherwise"] != s:
+                        res.append(("Eq", op_l, kconst(here[0]), True, b))
+                    elif not here and e0["otherwise"] == s:
+                        for v in vals:
+                            res.append(("Ne", op_l, kconst(v), True, b))
+                except ValueError:
+                    pass
+                continue
             ds = fn.whole_defs(dl["local"])
             if len(ds) != 1:
                 continue
@@ -267,6 +288,10 @@ class Intervals:
             v = self.local(fn, pl["local"], block, depth, seen)
         else:
             v = self._projected(fn, pl, block, depth, seen)
+        if depth < 3 and (v is None or v == ty_range(self._place_ty(fn, pl))):
+            tv = self._table_interval(fn, pl)
+            if tv is not None:
+                v = tv if v is None else meet(v, tv)
         if refine:
             v = self.refine(fn, pl, v, block, depth)
         return v
@@ -415,6 +440,29 @@ class Intervals:
             inner = {"local": pl["local"], "proj": pl["proj"][:-1]}
             return self.place(fn, inner, block, depth + 1, seen, refine=False)
         return None
+
+    @staticmethod
+    def _place_ty(fn, pl):
+        if not pl["proj"]:
+            return fn.local_ty(pl["local"])
+        last = pl["proj"][-1]
+        return last.get("ty", "") if last["k"] == "field" else ""
+
+    def _table_interval(self, fn, pl):
+        """a value taken from the elements of a literal table (`for (pos, v) in [(8, a), (16, b)]`): the join of the
+        constants at that position of every element"""
+        try:
+            import bytesview
+            t = Resolver(fn, max_depth=16).place(pl)
+            inst = bytesview.table_instances([t])
+            if len(inst) < 2:
+                return None
+            vals = [bytesview.const_eval(i[0]) for i in inst]
+            if any(v is None for v in vals):
+                return None
+            return (min(vals), max(vals))
+        except RecursionError:
+            return None
 
     def _ok_payload_local(self, fn, n, depth, seen, hops=0):
         """interval of the Ok / Some payload a Result-typed local can hold ("none" when it is never Ok)"""
